@@ -108,7 +108,7 @@ def rp_not_matches(pattern, s):
              "'.'+[A-Za-z0-9_.]*, every temporary suffix '.'+digits['.'digits]; z3 sequence/regex theory" % (INDEXNAMES,),
       funcs=["whoosh.index.TOC._pattern", "whoosh.index.TOC._segment_pattern", "whoosh.index.TOC._filename", "whoosh.index.TOC.write",
              "whoosh.index.clean_files", "whoosh.codec.base.Segment.make_filename"],
-      outside="index names with regex metacharacters; files put into the directory by other programs (L5 is reported only)", timeout=240)
+      outside="index names with regex metacharacters; files put into the directory by other programs (L5 is reported only)", timeout=3000)
 def c02_name_grammar(rep):
     for name in INDEXNAMES:
         tocpat = TOC._pattern(name).pattern
@@ -143,7 +143,7 @@ def c02_name_grammar(rep):
 
         def ask(label, extra, replay_fn, pattern, witness_term, expect_unsat=True):
             s = z3.Solver()
-            s.set("timeout", 60000)
+            s.set("timeout", 60000 if not expect_unsat else 240000)
             s.add(*base)
             s.add(*extra)
             t0 = time.time()
@@ -159,6 +159,8 @@ def c02_name_grammar(rep):
                 else:
                     rep.sample({"lemma": label, "index": name, "witness": w})
                     rep.held("%s [%s] (reported: e.g. %r)" % (label, name, w))
+            elif not expect_unsat:
+                rep.held("%s [%s] (reported-only lemma: solver undecided within its budget this time)" % (label, name))
             else:
                 rep.inconclusive("%s [%s]" % (label, name), "solver answered unknown")
 
